@@ -517,6 +517,46 @@ fn hints_of(op: &Value) -> bool {
 
 const NA: &str = "\u{0}na";
 
+// ---------------------------------------------------------------------------
+// C13 (sequential equivalence): while the threads of a `cfill` run, the
+// scheduling-point hook of the atomic vectors (compiled under --cfg sux_verif)
+// makes them yield at random between their atomic operations, so that real
+// interleavings of load / compare-exchange pairs on shared words do occur.
+// The hook only delays; it never changes what is computed.
+// ---------------------------------------------------------------------------
+static JITTER: std::sync::atomic::AtomicBool = std::sync::atomic::AtomicBool::new(false);
+
+fn jitter_hook(kind: u8, _word: usize) {
+    use std::cell::Cell;
+    use std::sync::atomic::Ordering::Relaxed;
+    if !JITTER.load(Relaxed) {
+        return;
+    }
+    thread_local! {
+        static RNG: Cell<u64> = Cell::new({
+            let t = std::time::SystemTime::now().duration_since(std::time::UNIX_EPOCH).unwrap().subsec_nanos() as u64;
+            (t ^ 0x9E37_79B9_7F4A_7C15) | 1
+        });
+    }
+    let r = RNG.with(|c| {
+        let mut x = c.get();
+        x ^= x << 13;
+        x ^= x >> 7;
+        x ^= x << 17;
+        c.set(x);
+        x
+    });
+    // before a compare-exchange (the window in which another writer can slip in) more often
+    let p = if kind == sux::verif::BF_CAS { 3 } else { 8 };
+    if r % p == 0 {
+        std::thread::yield_now();
+    } else if r % 64 == 1 {
+        for _ in 0..(r >> 58) * 20 {
+            std::hint::spin_loop();
+        }
+    }
+}
+
 pub fn run(ep: &Value, ctx: &mut Ctx) {
     // declared before `st` so that borrowed buffers outlive the structure
     let mut leaks = Leaks(Vec::new());
@@ -586,7 +626,11 @@ pub fn run(ep: &Value, ctx: &mut Ctx) {
                         .map(|p| p.as_array().unwrap().iter().map(|i| i.as_u64().unwrap() as usize).collect())
                         .collect();
                     let mode = op["mode"].as_str().unwrap();
-                    guard(|| match mode {
+                    if ep.get("jitter").and_then(|j| j.as_bool()).unwrap_or(false) {
+                        sux::verif::set_atomic_pre(jitter_hook);
+                        JITTER.store(true, std::sync::atomic::Ordering::SeqCst);
+                    }
+                    let r = guard(|| match mode {
                         "threads" => std::thread::scope(|s| {
                             for p in &parts {
                                 let xs = &xs;
@@ -604,7 +648,9 @@ pub fn run(ep: &Value, ctx: &mut Ctx) {
                         }
                         _ => panic!("ef: unknown cfill mode"),
                     })
-                    .map(|_| json!({}))
+                    .map(|_| json!({}));
+                    JITTER.store(false, std::sync::atomic::Ordering::SeqCst);
+                    r
                 }
                 _ => na(),
             },
